@@ -1,10 +1,12 @@
 import Gnet.Driver.Ring
 import Gnet.Driver.LinkedList
 import Gnet.Driver.Elastic
+import Gnet.Driver.Arith
 
 def main (args : List String) : IO UInt32 := do
   match args with
   | ["ring"] => Gnet.Driver.RingD.main; return 0
   | ["linkedlist"] => Gnet.Driver.LLD.main; return 0
   | ["elastic"] => Gnet.Driver.ElasticD.main; return 0
+  | ["arith"] => Gnet.Driver.ArithD.main; return 0
   | _ => IO.eprintln "usage: gnetmodel <component>"; return 2
